@@ -398,6 +398,20 @@ def check_verbatim(doc, chosen, cfg, res, history=None):
     rel, fit, w, h = cfg
     cs = impl.call(lambda: WebVTTReader().read(doc))
     base = {"replay": "verbatim", "input": doc, "cfg": [rel, fit, w, h]}
+    if not history and isinstance(cs, Ok):
+        # wave 7: the reader's side of the clause inside the model (model/VttSettings.v, request 1213): what the reader keeps of
+        # every timing line = the model's group 3, and the model's re-reading of the line the writer prints for it
+        tls = [l for l in doc.split("\n") if "-->" in l]
+        kept = [None if c.layout_info is None else c.layout_info.webvtt_positioning
+                for c in cs.v.get_captions(cs.v.get_languages()[0])]
+        ms = oracle_batch([(1213, l) for l in tls])
+        mk = [None if m[0] != 2 else m[1] for m in ms]
+        READER[0] += len(tls)
+        if any(m[0] == 0 for m in ms) or mk != kept:
+            res["disagreements"].append(dict(base, stream="vtt-reader-settings", impl=repr(kept)[:300], model=repr(mk)[:300]))
+        again = oracle_batch([(1213, m[2]) for m in ms if m[0] == 2])
+        if any(a[0] != 2 or a[1] != m[1] for a, m in zip(again, [m for m in ms if m[0] == 2])):
+            res["disagreements"].append(dict(base, stream="vtt-reader-settings-reread", impl="-", model=repr(again)[:300]))
     if history:
         base["history"] = [[f, list(c)] for f, c in history]
     res["evaluations"] += 1
@@ -791,7 +805,113 @@ def stream_history(ctx, res, printed):
     res["distribution"]["history(two writes of one CaptionSet object; the second document judged for its own options)"] = out
 
 
+# ------------------------------------------------------------------------------------------------ E
+def run_sequence(fmt, cfg, seq, same_writer):
+    """seq: [(acs, lang or None)] written one after the other - by ONE writer object, or by a fresh writer per write"""
+    rel, fit, w, h = cfg
+    W = DFXPWriter if fmt == "dfxp" else WebVTTWriter
+    mk = lambda: W(relativize=rel, fit_to_screen=fit, video_width=w, video_height=h)  # noqa: E731
+    writer = mk() if same_writer else None
+    outs = []
+    for acs, lang in seq:
+        wr = writer if same_writer else mk()
+        cs = posgen.build(acs)
+        if lang is None:
+            outs.append(impl.call(lambda: wr.write(cs)))
+        elif fmt == "dfxp":
+            outs.append(impl.call(lambda: wr.write(cs, force=lang)))
+        else:
+            outs.append(impl.call(lambda: wr.write(cs, lang=lang)))
+    return outs
+
+
+def observe_document(fmt, out):
+    """what the statement fixes of a written document: WebVTT - every timing line with its cue settings; DFXP - the
+    effective layout of every word after reading the document back"""
+    if isinstance(out, Err):
+        return ("raised", out.code)
+    if fmt == "vtt":
+        return ("vtt", [(t, s) for t, s, _ in vtt_cues(out.v)])
+    r = impl.call(lambda: DFXPReader().read(out.v))
+    if isinstance(r, Err):
+        return ("unreadable", r.code)
+    return ("dfxp", sorted((k, None if v is None else repr(geom.r_layout_plain(v.v))) for k, v in word_layouts(r.v).items()))
+
+
+def check_same_writer(fmt, cfg, seq, res):
+    """the i-th document written by a reused writer object must position its cues / words exactly as a fresh writer does for
+    the same set (whose output the other streams judge for that set's own layouts)"""
+    reused = run_sequence(fmt, cfg, seq, True)
+    fresh = run_sequence(fmt, cfg, seq, False)
+    res["evaluations"] += len(seq)
+    for i, (a, b) in enumerate(zip(reused, fresh)):
+        oa, ob = observe_document(fmt, a), observe_document(fmt, b)
+        if oa != ob:
+            res["violations"].append({
+                "kind": "writer-object-history", "replay": "same-writer", "fmt": fmt, "cfg": list(cfg),
+                "input": [[acs, lang] for acs, lang in seq], "index": i, "impl_obs": repr(oa)[:500],
+                "what": f"write number {i + 1} of one {fmt} writer object (relativize={cfg[0]}, fit={cfg[1]}, video {cfg[2]}x{cfg[3]}) "
+                        f"positions its document differently from a fresh writer on the same caption set: {repr(oa)[:200]} "
+                        f"instead of {repr(ob)[:200]}"})
+            return "viol"
+    return "ok"
+
+
+def one_lang(name, ll, cl, nl, word):
+    nodes = [["text", word + "a", None], ["break", None]] + \
+        ([["style", True, nl], ["text", word + "b", nl], ["style", False, nl]] if nl else [["text", word + "b", None]])
+    return {"name": name, "layout": ll, "caps": [{"layout": cl, "nodes": nodes}, {"layout": None, "nodes": [["text", word + "c", None]]}]}
+
+
+def stream_same_writer(ctx, res, printed):
+    """sequences of 2-3 writes on ONE writer object: a set positioned at language / caption / node level, then a set without
+    any layout (as read from SRT), then a set with another layout; a two-language set written for its first language and
+    then with lang= / force= for the second (and the other way round)"""
+    rng = ctx.rng
+    L, C, S = posgen.PCT_LAYOUTS["L"], posgen.PCT_LAYOUTS["C"], posgen.PCT_LAYOUTS["S2"]
+    mk = lambda *langs: {"global": None, "langs": list(langs)}  # noqa: E731
+    A = mk(one_lang("en-US", L, None, None, "la"))          # language-level layout only (a DFXP <div region>)
+    N = mk(one_lang("en-US", None, None, None, "no"))       # no layout at all (SRT)
+    B = mk(one_lang("en-US", C, None, None, "lb"))
+    Ac = mk(one_lang("en-US", None, C, None, "ca"))
+    An = mk(one_lang("en-US", None, None, S, "na"))
+    T = mk(one_lang("en-US", L, None, None, "te"), one_lang("fr", None, None, None, "tf"))
+    T2 = mk(one_lang("en-US", None, None, None, "ue"), one_lang("fr", C, None, None, "uf"))
+    seqs = [[(A, None), (N, None)], [(N, None), (A, None)], [(A, None), (N, None), (B, None)], [(B, None), (A, None)],
+            [(Ac, None), (N, None)], [(An, None), (N, None)], [(A, None), (Ac, None), (N, None)],
+            [(T, None), (T, "fr")], [(T, "fr"), (T, None)], [(A, None), (T, "fr")], [(T2, "fr"), (T2, None)], [(T2, "fr"), (N, None)],
+            [(B, None), (T, "fr"), (N, None)]]
+    out = {}
+    stats = {"split": 0, "mixed": 0, "refused": 0, "span": 0, "cue_settings": 0}
+    cfgs = [(False, False, None, None), DEFAULT_CFG, (True, True, 640, 360)]
+    for acs in (A, N, B, Ac, An):
+        # the fresh-writer documents of these sets are judged by the usual oracles
+        check_vtt_case(acs, DEFAULT_CFG, res, printed, stats)
+        check_dfxp_case(acs, DEFAULT_CFG, res)
+    for seq in seqs:
+        for fmt in ("vtt", "dfxp"):
+            for cfg in cfgs:
+                k = fmt + ":" + check_same_writer(fmt, cfg, seq, res)
+                out[k] = out.get(k, 0) + 1
+                res["nontrivial"].add(("same-writer", fmt, repr(seq), cfg))
+    for i in range(ctx.n(60, 1500)):
+        pool = [posgen.gen_layout(rng, (2,), p_none=0.3) for _ in range(3)]
+        seq = []
+        for j in range(rng.randint(2, 3)):
+            levels = rng.choice([(), ("lang",), ("cap",), ("node",), ("lang", "cap", "node")])
+            acs = posgen.gen_capset(rng, (2,), nlangs=(1, 2), ncaps=(1, 2), levels=levels, pool=pool, p_level=0.8)
+            lang = acs["langs"][1]["name"] if len(acs["langs"]) > 1 and rng.random() < 0.5 else None
+            seq.append((acs, lang))
+        fmt = "vtt" if i % 2 == 0 else "dfxp"
+        cfg = rng.choice(cfgs)
+        k = fmt + ":" + check_same_writer(fmt, cfg, seq, res)
+        out[k] = out.get(k, 0) + 1
+        res["nontrivial"].add(("same-writer-random", fmt, repr(seq), cfg))
+    res["distribution"]["same_writer_object(2-3 writes on one writer object; each document compared with a fresh writer's for the same set)"] = out
+
+
 NEAR_TIES = [0]
+READER = [0]
 SET_FALLBACK = [0]
 
 
@@ -817,12 +937,14 @@ def close_layout(a, b, tol=Fraction(1, 10**9)):
 def run(ctx):
     from props.C13 import Printed
     res = {"evaluations": 0, "nontrivial": set(), "violations": [], "disagreements": [], "distribution": {},
-           "streams": 4, "notes": []}
+           "streams": 5, "notes": []}
     printed = Printed()
     stream_settings(ctx, res, printed)
     stream_vtt(ctx, res, printed)
     stream_dfxp(ctx, res)
     stream_history(ctx, res, printed)
+    stream_same_writer(ctx, res, printed)
+    res["distribution"]["vtt_timing_lines_whose_kept_settings_are_the_reader_model's(request 1213)"] = READER[0]
     res["distribution"]["dfxp_written_document_vs_model(request 1211; lxml as an independent observer)"] = dict(DOCS)
     res["rule"] = ("settings: all 6x4 alignment pairs x padding/extent presence on a value grid + random layouts (percent, absolute "
                    "with video sizes, raw settings) x relativize x fit; WebVTT documents: captions with per-node layouts drawn from "
@@ -839,12 +961,13 @@ def run(ctx):
                     "one cue per maximal run of equal text-node layouts on node lists with BREAK / STYLE nodes (C12_vtt_split_by_layout_general)",
                     "tree level: DFXP write then read gives every word of a caption set of words / breaks / non-nested spans its expected effective layout; nearest ancestor wins",
                     "raw cue settings are passed through verbatim by the writer in every configuration",
+                    "reader side: the settings kept from a timing line are exactly the text between the white space after the end time and the trailing white space; they survive write -> read",
                     "effective-layout fallback node > caption > language; region table lookup total and faithful (no collision)",
                     "region attributes printed and read back give the two-decimal layout with defaults start / after",
                     "region bookkeeping: layouts that need a region share one iff they are equal; table keys pairwise different; ids r0..r(n-1) without gaps",
                     "cleanup_regions leaves the reader's result unchanged for every document; the written document's regions are exactly the referenced ones (no dangling reference, no orphan)"],
         "correspondence_only": ["the DFXP round trip through BeautifulSoup (region resolution on read); the written document (region table after cleanup, region attribute of the element each word sits in) is compared with the model's document (request 1211) through lxml",
-                                "WebVTTReader keeping the raw cue settings of a timing line (regex)",
+                                "the regex engine behind WebVTTReader's timing line (the function it computes is model/VttSettings.v, compared on every verbatim document)",
                                 "cue text assembly, timing lines"]}
     return res
 
@@ -882,6 +1005,10 @@ def replay(ctx, rec):
         except (ValueError, TypeError):
             return True, o.v
         return oracle_batch([(1310, [geom.a_layout_w(t.v), ws])])[0] != 1, o.v
+    if tag == "same-writer":
+        seq = [(a, l) for a, l in rec["input"]]
+        check_same_writer(rec["fmt"], tuple(rec["cfg"]), seq, res)
+        return bool(res["violations"]), (res["violations"] or [{"what": "ok"}])[0]["what"]
     if tag in ("dfxp", "vtt"):
         hist = [(f, tuple(c)) for f, c in rec.get("history") or []]
         if tag == "dfxp":
